@@ -1979,6 +1979,10 @@ func (s *sequenceState) opFreeStateID(args *nfsv4.FreeStateid4args) nfsv4.FreeSt
 	if st := nfs41CompareStateSeqID(stateID.seqID, lofs.stateID.seqID); st != nfsv4.NFS4_OK {
 		return nfsv4.FreeStateid4res{FsrStatus: st}
 	}
+	if lofs.lockCount > 0 {
+		// More details: RFC 8881, section 18.38.3, paragraph 1.
+		return nfsv4.FreeStateid4res{FsrStatus: nfsv4.NFS4ERR_LOCKS_HELD}
+	}
 	lofs.remove(cis, &ll)
 	return nfsv4.FreeStateid4res{FsrStatus: nfsv4.NFS4_OK}
 }
